@@ -2789,9 +2789,50 @@ func (a *Agent) handlePeerDisconnect(conn *peer.Connection, err error) {
 	a.routeMgr.HandlePeerDisconnectAgent(peerID)
 }
 
-// cleanupRelaysForPeer removes all relay entries involving the specified peer.
+// cleanupRelaysForPeer tears down everything that was relayed for, or opened on behalf
+// of, the specified peer: nobody else will close these tunnels once the peer is gone.
+// Relay entries are removed and the surviving side of each relay is told that the tunnel
+// ended; exit, forward, UDP and ICMP records opened for the peer are closed; local streams
+// whose next hop was the peer are reset.
 func (a *Agent) cleanupRelaysForPeer(peerID identity.AgentID) {
-	if cleaned := a.tcpRelay.DeleteByPeer(peerID); cleaned > 0 {
+	cleaned := 0
+	notify := func(table *relayTable, closeType uint8, payload []byte) {
+		for _, e := range table.PopByPeer(peerID) {
+			cleaned++
+			other, otherID := e.UpstreamPeer, e.UpstreamID
+			if e.UpstreamPeer == peerID {
+				other, otherID = e.DownstreamPeer, e.DownstreamID
+			}
+			if other == peerID {
+				continue
+			}
+			a.peerMgr.SendToPeer(other, &protocol.Frame{Type: closeType, StreamID: otherID, Payload: payload})
+		}
+	}
+	notify(a.tcpRelay, protocol.FrameStreamClose, nil)
+	notify(a.udpRelay, protocol.FrameUDPClose, (&protocol.UDPClose{Reason: protocol.UDPCloseError}).Encode())
+	notify(a.icmpRelay, protocol.FrameICMPClose, (&protocol.ICMPClose{Reason: protocol.ICMPCloseError}).Encode())
+
+	if a.exitHandler != nil {
+		cleaned += a.exitHandler.ClosePeerConnections(peerID)
+	}
+	if a.forwardHandler != nil {
+		cleaned += a.forwardHandler.ClosePeerConnections(peerID)
+	}
+	if a.udpHandler != nil {
+		cleaned += a.udpHandler.ClosePeerAssociations(peerID)
+	}
+	if a.icmpHandler != nil {
+		cleaned += a.icmpHandler.ClosePeerSessions(peerID)
+	}
+	for _, s := range a.streamMgr.GetAllStreams() {
+		if s.RemoteID == peerID {
+			a.streamMgr.HandleStreamReset(s.ID, protocol.ErrConnectionRefused)
+			cleaned++
+		}
+	}
+
+	if cleaned > 0 {
 		a.logger.Debug("cleaned up relay streams",
 			logging.KeyPeerID, peerID.ShortString(),
 			logging.KeyCount, cleaned)
